@@ -5,7 +5,7 @@ from vf import cN, cbool, cstr, clist, copt, cpair, cnat
 from ipamgen import O, cjson, cdump, cranges, csubnet, s2ip, ip2s
 
 IMPORTS = ("From Coq Require Import String.\nFrom stdpp Require Import gmap.\nFrom Galaxy.Base Require Import Strs.\n"
-           "From Galaxy.Model Require Import Nets Pool Ipam Plugin.\nFrom Galaxy.Model Require Keys.\n"
+           "From Galaxy.Model Require Import Nets Pool Ipam Plugin PluginPool.\nFrom Galaxy.Model Require Keys.\n"
            "From Galaxy.Corr Require Import CorrBase Ipamc Pluginc.\n")
 
 NODES = {"node1": "10.1.0.7", "node2": "10.2.0.9", "node3": "10.3.0.5", "node4": "10.77.0.1"}
@@ -65,8 +65,9 @@ def conf_trees(text):
 
 # ------------------------------------------------------------------ history generator
 class Gen:
-    def __init__(self, rng, ctx=None, provider=None, policies=None, kinds=None, faults=True, wf=False):
+    def __init__(self, rng, ctx=None, provider=None, policies=None, kinds=None, faults=True, wf=False, pool_api=False):
         self.rng, self.ctx = rng, ctx
+        self.pool_api = pool_api
         self.wf = wf               # stay inside the histories the L2 theorems quantify over (Proofs/PluginInv.v wf_op)
         self.pools = plugin_topology(rng)
         self.provider = rng.random() < 0.5 if provider is None else provider
@@ -124,6 +125,8 @@ class Gen:
         kinds = ["pod_put"] * 4 + ["informer"] * 6 + ["filter"] * 5 + ["bind"] * 6 + ["pod_phase"] * 3 + ["pod_delete"] * 3 + \
             ["event"] * 5 + ["resync"] * 3 + ["api_release"] * 2 + ["sync_pod"] + ["app_set"] * 3 + ["pool_set"] + \
             ["drop_event", "restart", "reload"]
+        if self.pool_api:
+            kinds += ["api_pool"] * 4 + ["pool_set"] * 3
         k = r.choice(kinds)
         self.dist("op:" + k)
         if k == "pod_put":
@@ -176,6 +179,9 @@ class Gen:
             return {"op": "dp_set", "ns": t["Ns"], "name": t.get("App") or "api", "replicas": r.choice([0, 1, 2, 3, None])}
         if k == "pool_set":
             return {"op": k, "name": "p1", "size": r.choice([0, 1, 2, 3, None])}
+        if k == "api_pool":
+            return dict({"op": k, "name": r.choice(["p1", "p1", "p2"]), "size": r.choice([0, 1, 2, 3, 5]), "prealloc": r.random() < 0.8},
+                        **self.fault("fstore"))
         if k == "drop_event":
             return {"op": k, "n": 0}
         if k == "restart":
@@ -239,7 +245,7 @@ def cwdump(d):
     return "{| wd_ipam := %s; wd_pods := %s; wd_queue := %s; wd_cloud := %s |}" % (cdump(d), pods, q, cl)
 
 
-def translate(hist, obs):
+def translate(hist, obs, ext=False):
     """-> (Coq list pstep_obs term, number of modelled steps, truncation reason or None, per-step meta list)"""
     terms, meta = [], []
     specs = {}       # (ns,name) -> latest spec put (API truth, by the generator's ops)
@@ -394,6 +400,22 @@ def translate(hist, obs):
                 return clist(terms), len(terms), "store-fault-in-sync", meta
             t = "(PSyncPod %s %s)" % (cpk(op["ns"], op["name"]), cfaults())
             out = "ROk"
+        elif k == "api_pool":
+            if not ext:
+                return clist(terms), len(terms), "pool-request-in-plain-history", meta
+            creates = [c for c in calls if c[0] == "create"]
+            picks = [s2ip(c[1]) for c in creates]
+            nfail = None
+            for i, c in enumerate(creates):
+                if c[2]:
+                    nfail = i
+            t2 = "(PApiPool %s %s %s %s %s)" % (cstr(op["name"]), cN(op["size"]), cbool(op.get("prealloc", False)), clist(cN(x) for x in picks),
+                                               "None" if nfail is None else "(Some %s)" % cnat(nfail))
+            out2 = "(RPool %s)" % {"ok": "PoolOk", "notenough": "PoolNotEnough"}.get(res, "PoolErr")
+            terms.append("(" + t2 + ", " + out2 + ", " + cwdump(d) + ")")
+            meta.append((k, len(terms) - 1))
+            prev = d
+            continue
         elif k == "reload":
             conf = op["conf"]
             t = "(PIpam (OConfigure %s false []))" % conf_trees(conf)
@@ -401,6 +423,8 @@ def translate(hist, obs):
             t = "(PRestart %s)" % conf_trees(conf)
         if t is None:
             return clist(terms), len(terms), "unmodelled-op-" + k, meta
+        if ext:
+            t, out = "(P1 %s)" % t, "(R1 %s)" % out
         terms.append("(" + t + ", " + out + ", " + cwdump(d) + ")")
         meta.append((k, len(terms) - 1))
         prev = d
